@@ -409,16 +409,27 @@ def run(ctx) -> None:
             continue
         elif isinstance(v, ast.Call) and dotted(v.func) == "all" and all(a_ in src(v) for a_ in arg_defs) and "is_type_compatible" in src(v):
             continue
+        elif isinstance(v, ast.Call) and dotted(v.func) == "all" and all(a_ in src(v) for a_ in arg_defs) and _encl(r.ast, (ast.If,)) is not None and "Literal" in src(_encl(r.ast, (ast.If,)).test) and any(isinstance(x, ast.Compare) and isinstance(x.ops[0], ast.In) for x in ast.walk(v)):
+            continue  # Literal[...]: the arguments are values, compared by membership of every incoming value
         else:
             bad_true.append(r)
     ok = n_ret >= 3 and not bad_true
     rep.add("C19.R9", f"{hg.qname}:args-compared", ok, f"{hg.module.rel}:{bad_true[0].lineno if bad_true else hg.lineno}", "after the type arguments are taken, 'compatible' comes from an unparameterised side or from the pairwise comparison of the arguments" if ok else f"'{src(bad_true[0].ast)}' answers for parameterised generics without comparing their type arguments (guard: '{src(_encl(bad_true[0].ast, (ast.If,)).test) if _encl(bad_true[0].ast, (ast.If,)) is not None else 'none'}'): list[int] -> Sequence[str] is accepted by a strict graph")
+    # Literal[...] arguments are values, not types: they never reach the type comparison (which resolves a string as a
+    # forward reference and raises NameError out of the constructor) — a Literal test precedes the pairwise comparison
+    pair = [r for r in walk_local(hg.node) if isinstance(r, ast.Return) and isinstance(r.value, ast.Call) and dotted(r.value.func) == "all" and "is_type_compatible" in src(r.value) and "zip(" in src(r.value)]
+    lit_tests = [t for t in walk_local(hg.node) if isinstance(t, ast.If) and "Literal" in src(t.test) and any(isinstance(x, ast.Return) for x in t.body)]
+    okl = bool(pair) and all(any(t.lineno < r.lineno and not contains(t, r) for t in lit_tests) for r in pair)
+    rep.add("C19.R9", f"{hg.qname}:literal-args-are-values", okl, f"{hg.module.rel}:{(pair[0] if pair else hg.node).lineno}", "Literal arguments are compared as values before the pairwise type comparison" if okl else "the arguments of Literal[...] are compared pairwise as types: a string value is resolved as a forward reference, so a strict graph with a Literal['x'] producer and a Literal['y'] (or equal) consumer makes the constructor raise NameError instead of deciding the edge")
 
     # the defaults-consistency and strict-type validators read a node's defaults/annotations under its *current* input
     # names: the original -> current map they are built from is never an unfiltered inversion of the reverse map
     from .c06 import check_inversions_over_current_names
 
     check_inversions_over_current_names(ctx, "C19.R5")
+    from .c06 import check_renames_reject_duplicates
+
+    check_renames_reject_duplicates(ctx, "C19.R5")
     # ---- R7 ---------------------------------------------------------------------
     voc_f = db.func("graph._conflict.validate_output_conflicts")
     n_pairs = 0
